@@ -7,6 +7,9 @@ VERIF = os.path.dirname(os.path.dirname(os.path.abspath(__file__)))
 
 # id -> (technique, level text, level note, design ref)   -- only checks that exist under mc/checks are claimed
 CHECKS = {
+    "C18": ("exhaustive enumeration of data partitions x attachment orders x navigation options against a union list model",
+            "Every assignment of an 8-element population (3 versions of one id, related objects, creator, relationship objects in two versions and both directions) to non-empty subsets of 2 member sources x both attachment orders, the version triple over 3 members x all 6 orders, composite filters, nested composites, filesystem members, single stores incl. a self-relationship, and every get/all_versions/query/relationships/related_to/creator_of option combination through CompositeDataSource, Environment(source=), Environment(store=) is executed and compared with the de-duplicated union; the ObjectFactory.create default/argument/list_append table (2x16x81) is enumerated completely.",
+            "trusted: union list model in mc/checks/c18_federation.py; navigation with composite-attached filters is not asserted (undefined)", "DESIGN.md §3 C18"),
     "C12": ("bounded exhaustive enumeration of filter sets x routes x stores against a naive reference evaluator",
             "All filter sets of size <=2 (thorough <=3) over ~50 filters (every operator on type/id incl. contradictory and repeated ones, scalar, list, timestamp in several spellings and as datetime, dotted paths, absent property) are executed on MemorySource and FileSystemSource through every route (query argument, attached, composite, nested composite, every mixed assignment for pairs) and compared with a naive evaluation over all stored objects; conjunction=intersection, route-independence, store agreement and attached-filter coverage of get/all_versions are asserted on the library's own answers.",
             "trusted: reference evaluator in mc/checks/c12_filters.py; population fixed (10 stored versions); only type-consistent filters", "DESIGN.md §3 C12"),
